@@ -44,7 +44,7 @@ def main():
         cands.sort(key=lambda c: (prefer.index(c[0]) if c[0] in prefer else 99, c[0]))
         done = False
         for name, doc in cands:
-            for drop in (14, 9, 3, 1):     # which alternative to remove (index into the '|' list)
+            for drop in (13, 9, 4, 1):     # which alternative to remove (index into the '|' list; 13 of p_defcolumn = 'defcolumn null')
                 alts = doc.split("|")
                 if drop >= len(alts):
                     continue
